@@ -250,3 +250,46 @@ def socket_mode_problems(repo: Repo, modules: Tuple[str, ...] = ('dulprovider', 
                                  'to the socket, so the next sendall() of a PDU that does not fit the kernel buffer raises BlockingIOError '
                                  'after a partial write' % (fi.qualname, recv, line, 'normally' if not how.startswith('raise') else how))
     return sorted(set(probs)), n_sw
+
+
+# --------------------------------------------------------------------------- one descriptor, one owner
+
+def descriptor_owner_problems(repo: Repo, modules: Optional[Tuple[str, ...]] = None) -> Tuple[List[str], int]:
+    """``socket.socket(fileno=s.fileno())`` (also ``os.fdopen(s.fileno())`` / ``open(s.fileno())`` without ``closefd=False``) wraps
+    the descriptor number of a live object in a second object that will close it too.  The number is handed out again by the
+    kernel after the first close, so the second close -- explicit, or by the finalizer of the forgotten first object -- hits
+    whatever got that number in the meantime: another association's connection or file.  Ownership moves with ``s.detach()``
+    (or is duplicated with ``os.dup`` / ``socket.fromfd``, which gives a new number).  -> (problems, number of wraps examined)"""
+    probs: List[str] = []
+    n = 0
+    for fi in repo.all_functions():
+        if modules is not None and fi.module.name not in modules:
+            continue
+        binds: Dict[str, List[ast.expr]] = {}
+        for x in ast.walk(fi.node):
+            if isinstance(x, ast.Assign) and len(x.targets) == 1 and isinstance(x.targets[0], ast.Name):
+                binds.setdefault(x.targets[0].id, []).append(x.value)
+        for x in ast.walk(fi.node):
+            if not isinstance(x, ast.Call):
+                continue
+            name = ast.unparse(x.func)
+            fd = None
+            if name in ('socket.socket', 'socket', 'socket.SocketType'):
+                fd = next((k.value for k in x.keywords if k.arg == 'fileno'), x.args[3] if len(x.args) > 3 else None)
+            elif name in ('os.fdopen', 'open', 'io.open', 'io.FileIO') and x.args:
+                if any(k.arg == 'closefd' and isinstance(k.value, ast.Constant) and k.value.value is False for k in x.keywords):
+                    continue
+                fd = x.args[0]
+            if fd is None:
+                continue
+            if isinstance(fd, ast.Name) and len(binds.get(fd.id, [])) == 1:
+                fd = binds[fd.id][0]
+            if isinstance(fd, ast.Call) and isinstance(fd.func, ast.Attribute):
+                n += 1
+                if fd.func.attr == 'fileno':
+                    probs.append('%s line %d: %s(...) is built on %s: the object %s still owns that descriptor and closes it as well '
+                                 '(at the latest when it is finalized) -- after the first close the number may belong to another '
+                                 'association\'s connection or file, which the second close destroys; hand the descriptor over with '
+                                 '.detach() or duplicate it (os.dup / socket.fromfd)'
+                                 % (fi.qualname, x.lineno, name, ast.unparse(fd), ast.unparse(fd.func.value)))
+    return sorted(set(probs)), n
